@@ -217,11 +217,12 @@ def check(prop, tier, seed=0, only=None, jobs=None):
         # replay at most 12 per obligation, preferring distinct preliminary keys
         chosen = []
         per_key = {}
-        for v in todo:
+        # simplest witnesses first (fewest bytes): they are the least likely to rest on over-approximated reads
+        for v in sorted(todo, key=lambda v: len(json.dumps(v.get('replay'), default=str))):
             if not v.get('replay'):
                 continue
             k = v.get('key')
-            if per_key.get(k, 0) < 2 and len(chosen) < 12:
+            if per_key.get(k, 0) < 5 and len(chosen) < 20:
                 per_key[k] = per_key.get(k, 0) + 1
                 chosen.append(v)
         rr = run_replays([dict(v['replay'], property=prop) for v in chosen])
